@@ -598,3 +598,29 @@ Definition ex_fb : value := VMap KTable [(VFloat 4607182418800017408, VInt 2); (
 Lemma ex_float_keys_nonvacuous :
   ex_fa <> ex_fb /\ v_wf ex_fa = true /\ v_wf ex_fb = true /\ v_cmp true ex_fa ex_fb = Some 0%Z.
 Proof. split; [discriminate|]. vm_compute. auto. Qed.
+
+(* ------------------------------------------------------------------ memswap exchanges two byte images *)
+Lemma memswap_loop_spec : forall fuel (pre a b a' b' : list N),
+  length a = fuel -> length b = fuel -> length a' = length pre -> length b' = length pre ->
+  memswap_loop fuel (length pre) (b' ++ a) (a' ++ b) = (b' ++ b, a' ++ a).
+Proof.
+  induction fuel as [|f IH]; intros pre a b a' b' La Lb La' Lb'.
+  - destruct a, b; try discriminate. reflexivity.
+  - destruct a as [|x a]; [discriminate|]. destruct b as [|y b]; [discriminate|].
+    cbn [memswap_loop].
+    assert (N1 : nth (length pre) (b' ++ x :: a) 0%N = x) by (rewrite app_nth2, Lb', Nat.sub_diag by lia; reflexivity).
+    assert (N2 : nth (length pre) (a' ++ y :: b) 0%N = y) by (rewrite app_nth2, La', Nat.sub_diag by lia; reflexivity).
+    rewrite N1, N2.
+    assert (S1 : forall l z w t, length l = length pre -> set_nth (length pre) z (l ++ w :: t) = l ++ z :: t).
+    { clear. intros l. generalize (length pre). induction l as [|h l IHl]; intros n z w t E; simpl in E; subst; simpl; [reflexivity|].
+      f_equal. apply IHl. reflexivity. }
+    rewrite !S1 by assumption.
+    specialize (IH (pre ++ [0%N]) a b (a' ++ [x]) (b' ++ [y])).
+    rewrite !app_length in IH. simpl in IH. rewrite !Nat.add_1_r in IH.
+    rewrite <- !app_assoc in IH. simpl in IH. apply IH; simpl in *; lia.
+Qed.
+
+Theorem memswap_exchanges a b : length a = length b -> memswap a b (length a) = (b, a).
+Proof.
+  intros L. unfold memswap. apply (memswap_loop_spec (length a) [] a b [] []); auto.
+Qed.
